@@ -56,7 +56,7 @@ def run(ctx):
             inj = rng.choice([0, 30, 50])
             mode = rng.below(8)
             cmds.append("RELAY %s %s %d %d %d %d %d" % (a, b, rng.range(2, 7) if not quick else rng.range(2, 4), 20 if quick else 50,
-                                                         ctx.seed * 1000 + i * 10 + sd, inj, mode))
+                                                         ctx.vseed * 1000 + i * 10 + sd, inj, mode))
     rc, res, err = relay.run(exe, cmds, ctx, timeout=3000)
     ctx.traces += 1
     if rc != 0 or len(res) != len(cmds):
